@@ -22,6 +22,10 @@ func init() {
 		ruleReflectSign(c, r, c.funcsInScope(func(s string) bool { return s == "ygot/render.go" || s == "ytypes/util_types.go" }, libPkgs), 4)
 		ruleWildcardOpt(c, r)
 		ruleReflectString(c, r, c.anchored("C02"))
+		ruleRenderSkip(c, r)
+		ruleIntBase(c, r)
+		ruleLossyNum(c, r, c.funcsInScope(func(s string) bool { return s == "ytypes/leaf.go" || s == "ytypes/leaf_list.go" || s == "ytypes/util_types.go" || s == "ygot/render.go" }, libPkgs), 2)
+		ruleFmtConst(c, r, c.funcsInScope(func(s string) bool { return s == "ygot/render.go" }, libPkgs), 10)
 	})
 	register("C16", func(c *Ctx, r *Report) {
 		r.Decides("every supported key kind has a string form in KeyValueAsString and a parser in stringToKeyType and StringToType; binary keys are rejected by the generator.",
@@ -32,6 +36,9 @@ func init() {
 		ruleReflectSign(c, r, c.funcsInScope(func(s string) bool { return s == "ygot/render.go" || s == "ytypes/util_types.go" }, libPkgs), 4)
 		ruleWildcardOpt(c, r)
 		ruleReflectString(c, r, c.anchored("C16"))
+		ruleIntBase(c, r)
+		ruleKeyExact(c, r)
+		ruleFmtConst(c, r, c.funcsInScope(func(s string) bool { return s == "ygot/render.go" }, libPkgs), 10)
 	})
 }
 
@@ -44,6 +51,7 @@ func init() {
 		ruleElemKeysSorted(c, r)
 		r.Rule("R-MAPRANGE-RETURN", "a range over a map returns at most one distinct result from inside the loop (otherwise the result depends on iteration order)", 0)
 		ruleMapRangeReturnFile(c, r, "ygot", "pathstrings.go")
+		ruleFmtConst(c, r, c.anchored("C08"), 5)
 	})
 	register("C09", func(c *Ctx, r *Report) {
 		r.Decides("ComparePaths/comparePathElem return only the absorbing relation (Disjoint) from inside their loops; no helper in util/gnmi.go returns two different results from inside a range over a map; wildcard \"*\" is honoured on the sides that may carry it.",
@@ -68,6 +76,7 @@ func init() {
 			"the exact success boundary (which pairs conflict), union-of-leaves and commutativity at value level.")
 		ruleCopyAlias(c, r)
 		ruleOptsForward(c, r, c.anchored("C05"), 10)
+		ruleIfaceIdentity(c, r)
 	})
 }
 
@@ -90,6 +99,7 @@ func init() {
 		ruleWriteGated(c, r)
 		ruleWildcardOpt(c, r)
 		ruleReflectString(c, r, c.anchored("C12"))
+		ruleKeyExact(c, r)
 	})
 }
 
@@ -102,6 +112,7 @@ func init() {
 		rulePatternForall(c, r)
 		ruleSignConv(c, r, c.anchored("C06"), 2)
 		ruleByteRune(c, r, c.anchored("C06"))
+		ruleCacheKey(c, r)
 	})
 	register("C07", func(c *Ctx, r *Report) {
 		r.Decides("every checker the property names is reachable from Validate through static calls; no validator loop silently skips an iteration; string lengths in characters; no sign-changing conversions in the validators.",
@@ -347,6 +358,9 @@ func init() {
 		ruleFloat2Int(c, r)
 		ruleWildcardOpt(c, r)
 		rulePartialKey(c, r)
+		ruleKeyExact(c, r)
+		ruleIntBase(c, r)
+		ruleLossyNum(c, r, c.funcsInScope(func(s string) bool { return s == "ytypes/leaf.go" || s == "ytypes/leaf_list.go" || s == "ytypes/util_types.go" || s == "ygot/render.go" }, libPkgs), 2)
 	})
 	register("C23", func(c *Ctx, r *Report) {
 		r.Decides("DiffSetRequestToNotifications expands notification leaves exactly like intent leaves and classifies every intent leaf by the (present, reflect.DeepEqual) table with the intent on side A, removes handled paths from the leftovers, and reports as extra only leftovers strictly below deleted/replaced paths; the intent side is the rule set of C22 (normal form, path formatting).",
